@@ -1,7 +1,7 @@
 \* behaviour generation by TLC simulation: random deep histories over a larger universe
 CONSTANTS NodeNames = {"n1", "n2"}  ClaimNames = {"c1", "c2"}  PodKeys = {"p1", "p2", "p3", "p4"}  Pids = {"i1", "i2", "i3"}
-          Pools = {"a", "b"}  PortNames = {"80", "81"}
-          Defects = {"costCarry", "nodeGone", "podUnbound", "volUnion"}  MaxMut = 1000  MaxDup = 1000  MaxLen = 30  WithTerm = TRUE
-          WithRestart = TRUE  PodShapes = {"std", "alt"}  MaxPend = 3
+          Pools = {"a", "b"}  PortNames = {"80", "81", "82"}
+          Defects = {"nodeGone", "podUnbound", "volUnion", "dsKept"}  MaxMut = 1000  MaxDup = 1000  MaxLen = 30  WithTerm = TRUE
+          WithRestart = TRUE  PodShapes = {"std", "alt", "bare"}  Start = "empty"  MaxFail = 2  MaxPend = 3
 SPECIFICATION Spec
 INVARIANTS GenPrint
